@@ -1,11 +1,11 @@
 ---- MODULE MC_Registry ----
 EXTENDS Registry
 \* class ids: A1 and A2 are two DIFFERENT classes both named "A"
-CS == { <<>>, <<"A1">>, <<"A2">>, <<"A1", "B">>, <<"E">>, <<"A1", "S1">>, <<"A2", "S2">> }
-CSQ == { <<>>, <<"A1", "S1">>, <<"A2", "S2">> }
+CS == { <<>>, <<"A1">>, <<"A2">>, <<"A1", "B">>, <<"E">>, <<"A1", "S1">>, <<"A2", "S2">>, <<"S1">> }
+CSQ == { <<>>, <<"A1", "S1">>, <<"A2", "S2">>, <<"S1">> }
 LA == {"x1", "xabc", "tagA", "y2", "r", "bad", "coll", "cyc"}
 LAQ == {"x1", "xabc", "bad", "coll", "cyc"}
-DA == {"plain", "objA1", "objA2", "enumr"}
-DAQ == {"plain", "objA1"}
+DA == {"plain", "objA1", "objA2", "enumr", "objS1"}
+DAQ == {"plain", "objS1"}
 KindsQ == {"load", "dumps", "dumps_json"}
 ====
